@@ -243,6 +243,8 @@ func (i *Interpreter) createDirectorRequest(ctx *context.Context, dc *value.Dire
 	if err != nil {
 		return nil, errors.WithStack(err)
 	}
+	// Keep the backend which the director has determined, following processes send the request to it
+	ctx.Backend.Value = backend.Value
 	return i.createBackendRequest(ctx, backend)
 }
 
